@@ -439,7 +439,10 @@ def oracle_getitem(src_obs, idx, err, res):
             step = items[k][3] if items[k][0] == "s" and items[k][3] is not None else 1
             exp = (src_obs["origin"][k], src_obs["sampling"][k] * step, src_obs["units"][k])
             cands.append((k, exp))
-            if (ro["origin"][j], ro["sampling"][j], ro["units"][j]) == exp:
+            # sampling * step is one float multiplication in the implementation: exact product
+            # up to a few ulp (2^-50 relative)
+            if (ro["origin"][j], ro["units"][j]) == (exp[0], exp[2]) and abs(
+                    ro["sampling"][j] - exp[1]) * (1 << 50) <= abs(exp[1]):
                 ok = True
         if not ok:
             key = ("getitem-nonadjacent-advanced-index" if separated_advanced(idx) else
